@@ -13,6 +13,7 @@ TEMPLATES = [
     ("elem", {"A": ["M"], "B": ["M"], "Z": ["M"]}, ["Z[m] = A[m] * B[m]"]),
     ("matvec", {"A": ["M", "K"], "B": ["K"], "Z": ["M"]}, ["Z[m] = A[m, k] * B[k]"]),
     ("three", {"A": ["K", "M"], "B": ["K", "N"], "C": ["M", "N"], "Z": ["M", "N"]}, ["Z[m, n] = A[k, m] * B[k, n] * C[m, n]"]),
+    ("mttkrp", {"A": ["I", "K", "L"], "B": ["K", "J"], "C": ["L", "J"], "Z": ["I", "J"]}, ["Z[i, j] = A[i, k, l] * B[k, j] * C[l, j]"]),
     ("elem3", {"A": ["M"], "B": ["M"], "C": ["M"], "Z": ["M"]}, ["Z[m] = A[m] * B[m] * C[m]"]),
     ("sum", {"A": ["M"], "B": ["M"], "Z": ["M"]}, ["Z[m] = A[m] + B[m]"]),
     ("dot", {"A": ["K"], "B": ["K"], "Z": []}, ["Z[] = A[k] * B[k]"]),
@@ -111,7 +112,7 @@ def gen(rng, force=None):
             for r in order:
                 d = {"format": rng.choice(["C", "U"])}
                 q = rng.random()
-                if q < 0.1:
+                if q < 0.18:
                     d["layout"] = "interleaved"
                     d["cbits"] = rng.choice([16, 32])
                     d["pbits"] = rng.choice([32, 64])
@@ -137,7 +138,8 @@ def gen(rng, force=None):
     if has_llb:
         chip_local.append({"name": "LLB", "class": "Buffet", "attributes": {"width": 64, "depth": 4096, "bandwidth": 4096}})
     if has_seq:
-        seq_ranks = rng.choice([1, 2, 3, 4])
+        longest = max(len(l) for l in loops.values())
+        seq_ranks = rng.choice([1, 2, 3, max(longest, 1), max(longest, 1)])
         chip_local.append({"name": "Seq", "class": "Sequencer", "attributes": {"num_ranks": seq_ranks}})
     pe_local = [{"name": "RegFile", "class": "Buffet", "attributes": {"width": 64, "depth": 128}}]
     isect_types = []
